@@ -23,8 +23,16 @@ TEXT = {
          "Coq proof + differential correspondence"),
 }
 
+GENERIC = ("Coq theorems over the executable model of the anchored code (coq/props/%s.v) + correspondence of the model with the real code on every run (harness families: %s) + the property monitor evaluated on the implementation's observations.",
+           "Trusted: Coq kernel, extraction (ExtrOcamlBasic), OCaml glue, Go harness and simulation adapters; see evidence trusted_base / assumptions and DESIGN.md 3.6.",
+           "Coq proof over the model + differential correspondence + monitor on implementation traces")
+
 def chk(pid):
-    text, note, technique = TEXT[pid]
+    if pid in TEXT:
+        text, note, technique = TEXT[pid]
+    else:
+        text = GENERIC[0] % (pid, ", ".join(PROPS[pid]["families"]))
+        note, technique = GENERIC[1], GENERIC[2]
     return {"property_id": pid, "quick_cmd": "./check %s quick" % pid, "thorough_cmd": "./check %s thorough" % pid,
             "evidence_file": "evidence/%s.json" % pid, "replay_cmd_template": "./check %s --replay {path}" % pid,
             "engine": "coq-model", "level_claimed": {"category": "proof", "text": text, "design_ref": "DESIGN.md section 4, " + pid},
